@@ -178,6 +178,18 @@ def run(chk):
         chk.finding(signature, dict(case=small, failure=cls, impl={k: v[:3000] for k, v in x1[0].items()},
                                     model={k: v[:3000] for k, v in xm[0].items()}, original=case[:4000]),
                     'C10 %s: %s' % (cls, what), no_input=cls.startswith('tie:'))
+    # erroneous text: MIR_scan_string may reject it, it must not crash (corpus/c10_scan.txt, found while auditing: C10-7)
+    raw_texts = [l for _, l in K.read_corpus('c10_scan.txt')]
+    if raw_texts:
+        rs = K.run(exes[0], ['rawscan ' + h for h in raw_texts])
+        for h, d in zip(raw_texts, rs):
+            chk.count('rawscan ' + h, nontrivial=True)
+            chk.dist('erroneous_text', 'rejected with an error list' if d.get('RS', '').startswith('ERR') else
+                     'accepted' if d.get('RS') == 'ok' else 'crash')
+            if 'CRASH' in d or 'RS' not in d:
+                chk.finding('scan-crash-on-erroneous-text:' + hashlib.sha1(h.encode()).hexdigest()[:8],
+                            dict(text=bytes.fromhex(h).decode('latin-1'), result=d),
+                            'C10 MIR_scan_string crashes (%s) on erroneous text instead of reporting errors' % d.get('CRASH'))
     chk.cov['rule'] = ('generated module descriptions (all item kinds, operand forms, boundary immediates, finite floats of the three '
                       'formats, strings over all byte values, aliases, block args, hard-reg globals, several modules per context) built '
                       'through the API by harness/c11_io.c; checked: MIR_scan_string accepts MIR_output text, the re-printed text is '
